@@ -13,6 +13,9 @@ CHECKS = {
  'C02': ('recursive', 'recursive grammars on the dyadic grid built by reverse construction + seeded Bool / integer-log-weight grammars -> sum_products x 3 methods x tol x kmax (starved budgets included) -> TLC judge (Trace_Recursive): TLC PROVES the least fixed point (exact fixed point of the equations on the grid and Jacobian infinity-norm q<1, hence unique in the box) or computes it by Kleene stabilisation (Bool, max-plus); no warning => value within tol/(1-q); linear on non-linearly-recursive grammars raises ValueError',
          '120 (quick) / 1100 (thorough) recursive grammars (linear, non-linear, mutual recursion, tensor-valued nonterminals, weight-one cycles in max-plus) x {Real, Log} or {Bool, Viterbi} x 3 methods x tolerances 1e-2/1e-4/1e-6 x budgets kmax 0,1,2,3,10,1000 x 2 dtypes; the oracle is a machine-checked certificate, not a second numeric solver.',
          'Trusted: TLC, Semantics.tla (fixed-point carriers with exact / directed rounding, CertExact, CertQ), the Banach a-posteriori bound tol/(1-q)+2 grid units (Log: tolerance scaled by the largest value). Grammars whose certificate TLC cannot prove (q>=1) only get the sound lower-bound clause. "Error vanishes as tol does" is sampled at three tolerances.', 'DESIGN.md#c02'),
+ 'C03': ('gradients', 'seeded non-recursive grammars (natural weights) and recursive grammars on the dyadic grid -> backward through sum_product for Real and Log, 3 methods, cotangents on the start tensor -> TLC judge (Trace_Grad): formal derivative of the sum-product polynomial by dual numbers in Semantics.tla (exact for Real, exact rational w dZ/dw / Z for Log), enclosure of the derivative of the TLC-proved least fixed point for recursive grammars',
+         'Every entry of every factor gradient of 120 (quick) / 1500 (thorough) non-recursive grammars (shared factors, zero weights, factors that cannot reach the start, absent gradients) is compared with the exact derivative; for 40 / 400 certified recursive grammars with an enclosure of width 8/1024 obtained by Kleene iteration of the dual system with directed rounding and a post-fixed-point test.',
+         'Trusted: TLC, Semantics.tla dual carriers, projection of gradients (exact integers / scaled by 1e4 / grid units). Recursive Log gradients and derivatives at infinite weights are outside; requires_grad_ is set after factor construction as bin/sum_product.py does.', 'DESIGN.md#c03'),
  'C05': ('factorize', 'seeded grammars + label-collision grammars + min_fill-suboptimal witnesses -> factorize_rule/hrg/fgg x 3 methods on real rules -> TLC judge (Trace_Factorize): fresh-nonterminal discipline, inlining up to isomorphism, width clauses with TLC treewidth DP; sum_products of the factorized FGG judged by Trace_SumProduct',
          'Every rule of 80+ (quick) / 770+ (thorough) seeded grammars (isolated nodes, several components, nullary/repeated-attachment edges, externals anywhere, up to 5 nodes) through all three entry points and methods; TLC inlines the fresh nonterminals and searches for an isomorphism with the original rule (exhaustive up to 6 nodes), checks no rule got wider and that exact methods reach treewidth+1 (treewidth by subset DP, witnesses of 7-8 nodes where min_fill is sub-optimal); the factorized FGG has the same sum-product (exact, nat carrier).',
          'Trusted: TLC, Factorize.tla + TreeDec.tla + Semantics.tla, the projection of rules (node ids to integers). Beyond 6 nodes only the identity-on-ids isomorphism is tried (uncertified otherwise, never an alarm).', 'DESIGN.md#c05'),
